@@ -78,11 +78,11 @@ class TlsWith(Rule):
                 out.append(Edit(tm.start(), tm.start() + 1, "", "rule", "D4"))
             body_s, body_e = pm.end(), pc
             pats = [
-                (r"let\s+mut\s+%s\s*=\s*%s\.borrow_mut\(\)\s*;" % (param, param), "let %s = &mut tls.%s;" % (param, self.field)),
-                (r"let\s+%s\s*=\s*%s\.borrow\(\)\s*;" % (param, param), "let %s = &tls.%s;" % (param, self.field)),
-                (r"\*\s*%s\.borrow_mut\(\)" % param, "tls.%s" % self.field),
-                (r"\b%s\.borrow_mut\(\)" % param, "tls.%s" % self.field),
-                (r"\b%s\.borrow\(\)" % param, "tls.%s" % self.field),
+                (r"let\s+mut\s+%s\s*=\s*%s\s*\.\s*borrow_mut\(\)\s*;" % (param, param), "let %s = &mut tls.%s;" % (param, self.field)),
+                (r"let\s+%s\s*=\s*%s\s*\.\s*borrow\(\)\s*;" % (param, param), "let %s = &tls.%s;" % (param, self.field)),
+                (r"\*\s*%s\s*\.\s*borrow_mut\(\)" % param, "tls.%s" % self.field),
+                (r"\b%s\s*\.\s*borrow_mut\(\)" % param, "tls.%s" % self.field),
+                (r"\b%s\s*\.\s*borrow\(\)" % param, "tls.%s" % self.field),
             ]
             taken = []
             for rx, rep in pats:
